@@ -703,12 +703,19 @@ fn operand<'tcx>(
 fn constant<'tcx>(tcx: TyCtxt<'tcx>, env: TypingEnv<'tcx>, c: &Const<'tcx>) -> J {
     let ty = c.ty();
     if let ty::FnDef(def_id, args) = ty.kind() {
-        return J::Obj(vec![
+        let mut o = vec![
             ("kind".into(), jstr("fn")),
             ("path".into(), jstr(tcx.def_path_str(*def_id))),
             ("full".into(), jstr(tcx.def_path_str_with_args(*def_id, args))),
             ("local".into(), J::Bool(def_id.is_local())),
-        ]);
+        ];
+        if let Ok(Some(inst)) = Instance::try_resolve(tcx, env, *def_id, args) {
+            if let InstanceKind::Item(rid) = inst.def {
+                o.push(("resolved".into(), jstr(tcx.def_path_str(rid))));
+                o.push(("resolved_local".into(), J::Bool(rid.is_local())));
+            }
+        }
+        return J::Obj(o);
     }
     let mut extra: Vec<(String, J)> = Vec::new();
     if let Const::Unevaluated(uv, _) = c {
